@@ -7,3 +7,4 @@ Definition k_flow_pack_asn1_object_identifier : pfun :=
     ] [];
     SReturn (PCall "_pack_asn1" [(PAttr (PName "tag") "tag_class"); (PAttr (PName "tag") "is_constructed"); (PAttr (PName "tag") "tag_number"); (PCall "_encode_object_identifier" [(PName "value")])])
   ] |}.
+Definition k_flow_pack_asn1_object_identifier_defaults : list (string * pexp) := [("tag", PNone)].
